@@ -40,5 +40,13 @@ func init() {
 		"fatal = what HAProxy refuses at load (unknown backend/userlist/file, duplicated section/server/bind); dangling = map value or path id that resolves to nothing")
 	propMeta["C02"] = l2("endpoint/weight/certificate churn with runtime commands and socket faults; non-trivial = runtime commands were sent and the running state was compared with the files at least once; distinct = distinct trace signature")
 	propMeta["C11"] = l2("(a) histories of spurious re-notifications, (b) endpoint churn under dynamic scaling; non-trivial = at least 2 reconciliations after start-up; distinct = distinct trace signature")
+	propMeta["C13"] = meta{rule: "each run = one limiter (reload or reconcile), one interval setting and 3..28 notification arrivals placed relative to the interval (bursts, just before/after a scheduled run, during a run, idle gaps), with processing times; non-trivial = at least 3 arrivals; distinct = distinct trace signature",
+		assumptions: []string{"spacing is measured from the instant a run was due: a start held back by the single worker being busy with another run is not the limiter's doing", "reload retries after a failed reload bypass the limiter by design and are C12's subject"},
+		real:        []string{"pkg/utils/workqueue rate limiters and WorkQueue", "client-go rate-limiting/delaying queue", "controller-runtime controller worker loop (reconcile profile)"},
+		stub:        []string{"reload / reconcile callbacks: recorders with generated processing time", "wall clock: testing/synctest fake clock"}}
+	propMeta["C14"] = meta{rule: "each run = 4..18 informer events over 7 kinds delivered by one task per kind, 1..6 batch swaps by a reconciler task, interleaved at statement granularity by the tape; non-trivial = at least one accepted event and one swap; distinct = distinct trace signature",
+		assumptions: []string{"watchers.go is instrumented with a yield before every statement and a scheduler-aware mutex; exactly one task runs at a time", "porcupine decides linearizability of the put/take-all history against a multiset accumulator; Unknown (timeout) is harness trouble, never a verdict"},
+		real:        []string{"pkg/controller/reconciler watchers: handlers, predicates, compose/notify, getChangedObjects/initCh"},
+		stub:        []string{"validator (class membership read from the object)", "reconcile queue: recorder", "informers: scheduler-owned tasks"}}
 	propMeta["C12"] = l2("churn histories with disk/socket/reload/API faults, then faults stop and no further cluster change happens; non-trivial = at least one fault fired and the convergence check ran; distinct = distinct trace signature")
 }
